@@ -159,6 +159,18 @@ class Builder:
                     else:
                         res = f(list(args))
                     res = _flat(res)
+                elif op == 'sinkn':     # output unit whose channel array is given as nested lists
+                    cls = self.ugens.installed_ugens[ins['cls']]
+                    f = _ctor(cls, ins['rate'])
+                    nfix = {'LocalOut': 0, 'XOut': 2}.get(ins['cls'], 1)
+                    c = list(args[nfix:])
+                    if ins['sel'] == 'head':
+                        arr = [[c[0], c[1]]] + c[2:]
+                    elif ins['sel'] == 'tail':
+                        arr = c[:-2] + [[c[-2], c[-1]]]
+                    else:
+                        arr = [[c[0], [c[1]]]] + c[2:]
+                    res = f(*args[:nfix], arr)
                 elif op == 'raise':
                     raise RuntimeError('graph function fails on purpose')
                 elif op == 'bad':        # invalid input kinds for C02 (NaN / string / None ...)
